@@ -998,6 +998,12 @@ pub fn escape(unescaped: &str) -> Cow<str> {
     }
 }
 
+/// Applies an operation of the variance algebra to canonical text forms (verification hook).
+#[cfg(olson_sean_k_wax_verif)]
+pub fn verif_variance_op(op: &str, lhs: &str, rhs: &str) -> Option<String> {
+    crate::token::verif_variance_op(op, lhs, rhs)
+}
+
 // TODO: Is it possible for `:` and `,` to be contextual meta-characters?
 /// Returns `true` if the given character is a meta-character.
 ///
